@@ -115,6 +115,37 @@ fn main() {
                 std::process::exit(3);
             }
         }
+        "sources" => {
+            // rvmon sources <n> <seed>: JSON lines {source, sql} for the binding stage
+            // (constant-rich programs without free variables, so that no bindings are needed)
+            let n: u64 = args.get(2).and_then(|s| s.parse().ok()).unwrap_or(100);
+            let seed: u64 = args.get(3).and_then(|s| s.parse().ok()).unwrap_or(1);
+            let mut emit = |src: &str| {
+                let outcome = mon::run1(src, &[]);
+                let sql = match mon::catch(|| {
+                    use rscel_to_sql::IntoSqlBuilder;
+                    let p = rscel::Program::from_source(src).ok()?;
+                    p.ast()?.into_sql_builder().ok()?.to_sql().ok()
+                }) {
+                    Ok(v) => v,
+                    Err(_) => None,
+                };
+                println!("{}", serde_json::json!({"source": src, "ok": outcome.is_val(), "kind": outcome.class(), "sql": sql}));
+            };
+            for s in corpus::CORPUS {
+                emit(s);
+            }
+            for i in 0..n {
+                let mut rng = rng::Rng::new(rng::mix(&[seed, 0x50c, i]));
+                let mut cfg = gen::GenCfg::basic(vec![]);
+                cfg.tame = rng.chance(1, 2);
+                cfg.allow_time = false; // python datetime has no nanoseconds / wide years
+                let ty = gen::random_ty(&mut rng, 1);
+                let d = 1 + rng.below(3) as u32;
+                let e = gen::Gen::new(&mut rng, cfg).expr(&ty, d);
+                emit(&gen::render(&e, gen::Ws::Pretty, gen::Parens::Minimal, None).text);
+            }
+        }
         "ladder" => {
             // rvmon ladder <kind> <depth> [thread]  (probe: prints the outcome or dies)
             let kind = &args[2];
